@@ -139,7 +139,7 @@ reg("C12", "model_checking",
 
 reg("C01", "model_checking",
     "deviation-bounded stateless search: real AshProtocol host x independent reference ASH endpoint (window 1..3) over two faulty FIFO lines, all schedules with <= k deviations",
-    "Every execution with <= 2 (thorough 3) deviations from {drop, detectable corruption, duplication of a frame in either direction, a 4-frame outage, cross-direction reordering, timer stall on "
+    "Every execution with <= 2 (thorough 3) deviations from {drop, detectable corruption, duplication of a frame in either direction (the copy adjacent, or late behind the frames in flight), a 4-frame outage, cross-direction reordering, timer stall on "
     "either side, early submission, cancellation of a host caller} for NCP windows 1..3, 3+3 payloads (idle-submitted and in bursts, NCP with and without NAK on corrupted frames), plus 10 (18) "
     "payloads per side wrapping the 3-bit numbers with <= 1 (2) deviations. Oracle on every step: both upper layers see an in-order duplicate-free subsequence; a completed send was handed up exactly "
     "once (both directions), a failed one at most once; below the retry budget every non-cancelled send succeeds; nothing hangs.",
